@@ -110,6 +110,24 @@ def run(ctx):
     ctx.traces += nfinal
     ctx.extra["b1_final_runs"] = nfinal
 
+    # 2b. unlogged stress: only the final state is observed; it must satisfy OneResultEach and CountsMatch ---------
+    sp = os.path.join(ctx.work, "stress.ndjson")
+    vlib.vh(["c22", "stress", "--batches", 12000 if thorough else 3000, "--out", sp], timeout=1800)
+    sevs = vlib.read_ndjson(sp)
+    hung = [e for e in sevs if e["ev"] == "hang"]
+    for e in hung[:3]:
+        ctx.violation({"what": "execute() did not return within 20 s", "class": "hang", "config": e})
+    finals_only = [e for e in sevs if e["ev"] == "stress_final"]
+    vlib.write_ndjson(sp, finals_only)
+    ok_s, rej_s, res_s = vlib.trace_validate("conc", "BatchTrace", sp)
+    ctx.add_tlc(res_s)
+    ctx.traces += len(finals_only)
+    ctx.evaluations += len(finals_only)
+    ctx.extra["unlogged_stress_batches"] = len(finals_only)
+    if not ok_s:
+        ctx.violation({"what": "final state of a batch (16 succeeding jobs, 4 workers, synchronized completion) violates OneResultEach/CountsMatch",
+                       "class": "stress_final_state", "observed": rej_s["event"]})
+
     # 3. B2: recorded executions ---------------------------------------------------------------------------------
     tp = os.path.join(ctx.work, "trace.ndjson")
     ncases = 600 if thorough else 150
